@@ -86,6 +86,17 @@ def protocol_spec(rng, nparties=None, nmsgs=None, depth=3):
         s = rng.choice(parties)
         r = rng.choice([p for p in parties if p != s] + [None])
         msgs.append((s, r, f"m{i}"))
+    # the same message type used with another recipient / another sender: only the party annotation tells the uses apart
+    for i in range(k):
+        s, r, name = msgs[i]
+        if len(parties) >= 3 and rng.random() < 0.3:
+            if rng.random() < 0.7:
+                others = [p for p in parties if p != s and p != r]
+                msgs.append((s, rng.choice(others), name))
+            else:
+                others = [p for p in parties if p != s and p != r]
+                msgs.append((rng.choice(others), r, name))
+    k = len(msgs)
     # two-level structure through a non-message nonterminal
     for _ in range(50):
         top = rand_structure(rng, msgs, depth)
@@ -105,7 +116,11 @@ def protocol_spec(rng, nparties=None, nmsgs=None, depth=3):
     lines.append("<start> ::= " + to_text(top, msgs, {}))
     if use_sub:
         lines.append("<sub> ::= " + to_text(sub, msgs, {}))
+    done = set()
     for i, (s, r, name) in enumerate(msgs):
+        if name in done:
+            continue
+        done.add(name)
         lines.append(f"<{name}> ::= '{name}' <payload{i}>")
         lines.append(f"<payload{i}> ::= r'[0-9]{{2}}'")
     return "\n".join(lines) + "\n", parties, msgs
